@@ -26,7 +26,11 @@ VF == << P("S"), P("s"), P("U"), P("u"), P("C"), P("c"), P("b"), P("n"), P("N"),
          Imm("S"), Imm("s"), Imm("U"), Imm("u"), Imm("C"), Imm("c"), Imm("b"), Imm("f"),
          Param("S", FALSE, FALSE, TRUE, FALSE), Param("u", FALSE, FALSE, TRUE, FALSE), Param("b", TRUE, FALSE, TRUE, FALSE),
          Param("S", FALSE, FALSE, FALSE, TRUE),
-         Param("s", FALSE, TRUE, FALSE, FALSE), Param("u", FALSE, TRUE, FALSE, FALSE), Param("S", FALSE, TRUE, FALSE, FALSE) >>
+         Param("s", FALSE, TRUE, FALSE, FALSE), Param("u", FALSE, TRUE, FALSE, FALSE), Param("S", FALSE, TRUE, FALSE, FALSE),
+         \* `hex` is a display attribute: on every other integer letter too it must change neither range nor sign
+         Param("s", FALSE, FALSE, TRUE, FALSE), Param("c", FALSE, FALSE, TRUE, FALSE), Param("U", FALSE, FALSE, TRUE, FALSE),
+         Param("C", FALSE, FALSE, TRUE, FALSE), Param("n", FALSE, FALSE, TRUE, FALSE),
+         Param("s", TRUE, FALSE, TRUE, FALSE), Param("c", TRUE, FALSE, TRUE, FALSE), Param("u", TRUE, FALSE, TRUE, FALSE) >>
 VS == << VF[1], VF[18], VF[2], VF[4], VF[6], VF[7], VF[11], VF[12], VF[13], VF[14], VF[15] >>
 KF == 6
 CS == <<1, 2, 4, 5>>        \* the choices used in F3 / FB
